@@ -43,6 +43,8 @@ fn main() {
     match prop.as_str() {
         "C19" => props::c19::run(&a),
         "C17" => props::c17::run(&a),
+        "C03" => props::c03::run(&a),
+        "C01" => props::c01::run(&a),
         "C09" => props::c09::run(&a),
         "C11" => props::c11::run(&a),
         "C12" => props::c12::run(&a),
